@@ -84,6 +84,15 @@ class SdpTwin:
             f = "trunc"
         if f == "trunc" and self.transport == "hid":
             data = b""  # HID reports have a fixed size: a report is delivered completely or not at all
+        # one flipped bit in a status word (HAB status or completion status; SDP has no CRC - a status word that is none of the defined values is
+        # the only way a corrupted acknowledgement can be noticed; flips inside DATA cannot be noticed and are no listed fault)
+        if self.fault and self.fault[0] == "flip" and kind in ("hab", "status") and self.sent <= self.fault[1] < self.sent + len(data):
+            w = bytearray(data)
+            w[self.fault[1] - self.sent] ^= 1 << (self.fault[2] % 8)
+            data = bytes(w)
+            f = "flip"
+            if kind == "status":
+                info["okValue"] = False
         if kind == "data":
             self.data_regions.append((self.sent, self.sent + len(data)))
         self.sent += len(data)
@@ -165,7 +174,7 @@ def run_sdp(job):
     from spsdk.sdp.sdp import SDP
 
     jid, transport, op, length, bursts, fkind, fpos = job
-    twin = SdpTwin(transport, bursts, (fkind, fpos) if fkind == "trunc" else None, fkind == "err")
+    twin = SdpTwin(transport, bursts, (fkind, fpos) if fkind == "trunc" else (("flip", fpos // 8, fpos % 8) if fkind == "flip" else None), fkind == "err")
     proto = (SDPSerialProtocol if transport == "serial" else SDPBulkProtocol)(twin)
     proto.identifier = "twin"
     s = SDP(proto)
@@ -212,6 +221,9 @@ def run_sdp(job):
             res["ok"] = s.jump_and_run(args[0]) is True
         elif op == "skip_dcd":
             res["ok"] = s.skip_dcd() is True
+        # the status code is part of what a call reports: a call is a success only with status SUCCESS (a HAB status word that is not UNLOCKED
+        # leaves HAB_IS_LOCKED there - for a device that really is locked that is information, for a damaged word it is how the fault surfaces)
+        res["ok"] = bool(res["ok"]) and s.status_code == 0
     except SPSDKError as e:
         res.update(kind="exc", exc=type(e).__name__, documented=True, ok=False)
     except TimeoutError as e:
@@ -259,4 +271,11 @@ def sdp_jobs(tier, r):
                     if 0 <= p < total:
                         n += 1
                         jobs.append((f"sdp-{n}", transport, op, ln, [], "trunc", p))
+                # one flipped bit in the HAB status word (first 4 bytes) and, where there is one, in the completion status word (last 4 bytes)
+                words = [0] + ([total - 4] if op not in ("read", "jump", "read_status") else [])      # the second word of read_status is DATA (the error code)
+                for w0 in words:
+                    for byte in range(4):
+                        for bit in ((0, 3, 7) if tier == "quick" else range(8)):
+                            n += 1
+                            jobs.append((f"sdp-{n}", transport, op, ln, [], "flip", (w0 + byte) * 8 + bit))
     return jobs
